@@ -92,6 +92,12 @@ func (s *Server) handleAuthentication(conn net.Conn) error {
 		}
 	}
 
+	if len(s.config.AuthOpts.IngressCredentials) > 0 {
+		// User and password are required by socks5 server. Never select
+		// no authentication, even if the client also offers it.
+		requestNoAuth = false
+	}
+
 	if !requestNoAuth && !requestUserPassAuth {
 		HandshakeErrors.Add(1)
 		if _, err := conn.Write([]byte{constant.Socks5Version, constant.Socks5NoAcceptableAuth}); err != nil {
@@ -101,10 +107,6 @@ func (s *Server) handleAuthentication(conn net.Conn) error {
 	}
 	if requestNoAuth {
 		// Handle no authentication. This has higher priority than user password authentication.
-		if !requestUserPassAuth && len(s.config.AuthOpts.IngressCredentials) > 0 {
-			HandshakeErrors.Add(1)
-			return fmt.Errorf("socks5 client requested no authentication, but user and password are required by socks5 server")
-		}
 		if _, err := conn.Write([]byte{constant.Socks5Version, constant.Socks5NoAuth}); err != nil {
 			HandshakeErrors.Add(1)
 			return fmt.Errorf("write authentication response (no authentication required) failed: %w", err)
